@@ -293,7 +293,18 @@ func runC03(tier string, seed uint64) int {
 		runSchedules("C03", agg, bin, root, lines, refs, scheds, scratch, fmt.Sprintf("b%ds", b), 3)
 		agg.add("batches", 1)
 		agg.add("batch_lines", int64(len(lines)))
-		os.RemoveAll(root)
+		for _, l := range lines {
+			for _, t := range l.Tokens {
+				if strings.HasPrefix(t, "parameter=") && l.DupOf < 0 {
+					agg.add("lines_with_custom_crop_code", 1)
+				}
+			}
+		}
+		if os.Getenv("VERIF_KEEP") == "" {
+			os.RemoveAll(root)
+		} else {
+			fmt.Println("kept", root)
+		}
 	}
 	// file pool history under the race detector (porcupine)
 	poolRes := runPoolHistory(seed, tier)
